@@ -24,17 +24,23 @@ def build_driver(repo):
     crate = os.path.join(BUILD, "crate")
     os.makedirs(os.path.join(crate, "src"), exist_ok=True)
     shutil.copy(os.path.join(ROOT, "replay", "driver", "src", "main.rs"), os.path.join(crate, "src", "main.rs"))
-    with open(os.path.join(crate, "Cargo.toml"), "w") as f:
-        f.write('[package]\nname = "replay-driver"\nversion = "0.0.0"\nedition = "2021"\n[dependencies]\n'
-                'num-bigint = { path = "%s" }\nnum-integer = "0.1.46"\nnum-traits = "0.2.18"\n'
+    # the `rand` feature of the crate (C18) is driven through a deterministic stream generator; if the rand crate cannot be
+    # resolved offline the driver is built without it and the r* operations answer UNSUPPORTED
+    manifest = ('[package]\nname = "replay-driver"\nversion = "0.0.0"\nedition = "2021"\n[features]\nwithrand = ["dep:rand", "num-bigint/rand"]\n[dependencies]\n'
+                'num-bigint = { path = "%s" }\nnum-integer = "0.1.46"\nnum-traits = "0.2.18"\nrand = { version = "0.8", default-features = false, optional = true }\n'
                 '[profile.dev]\nopt-level = 1\ndebug-assertions = true\noverflow-checks = true\n' % repo)
+    with open(os.path.join(crate, "Cargo.toml"), "w") as f:
+        f.write(manifest)
     lock = os.path.join(repo, "Cargo.lock")
     if os.path.exists(lock) and not os.path.exists(os.path.join(crate, "Cargo.lock")):
         shutil.copy(lock, os.path.join(crate, "Cargo.lock"))
     env = dict(os.environ, CARGO_NET_OFFLINE="true", CARGO_TARGET_DIR=os.path.join(BUILD, "target"))
-    p = subprocess.run(["cargo", "build", "--offline", "-q"], cwd=crate, env=env, capture_output=True, text=True, timeout=900)
+    p = subprocess.run(["cargo", "build", "--offline", "-q", "--features", "withrand"], cwd=crate, env=env, capture_output=True, text=True, timeout=900)
     if p.returncode != 0:
-        return None, p.stderr[-3000:]
+        first = p.stderr[-1500:]
+        p = subprocess.run(["cargo", "build", "--offline", "-q"], cwd=crate, env=env, capture_output=True, text=True, timeout=900)
+        if p.returncode != 0:
+            return None, (first + "\n--- without rand ---\n" + p.stderr[-1500:])
     return os.path.join(BUILD, "target", "debug", "replay-driver"), ""
 
 
@@ -450,6 +456,81 @@ def expected(case):
                     return False
                 return (not lcm) or f[3] == (0 if g0 == 0 else abs(x0 * y0) // g0)
             return ("ID", ident, want)
+        if op[0] == "r" and op.split("_")[0] in ("rgen", "rbits", "runiform", "rsingle"):
+            # feature `rand` (C18): the generator replays the given 32-bit words (cyclically); gen::<bool>() is the sign bit of the next word
+            class St:
+                def __init__(self, ws):
+                    self.w, self.pos = ws, 0
+
+                def next(self):
+                    v = self.w[self.pos % len(self.w)]
+                    self.pos += 1
+                    return v
+
+            def g_u(st, bits):
+                n = (bits + 31) // 32
+                ws = [st.next() for _ in range(n)]
+                if bits % 32:
+                    ws[-1] >>= 32 - bits % 32
+                return sum(x << (32 * i) for i, x in enumerate(ws))
+
+            def g_below(st, bound):
+                if bound == 0:
+                    raise ZeroDivisionError
+                for _ in range(200):
+                    c = g_u(st, bound.bit_length())
+                    if c < bound:
+                        return c
+                raise OverflowError
+
+            def g_i(st, bits):
+                for _ in range(200):
+                    m = g_u(st, bits)
+                    if m == 0:
+                        if st.next() >> 31:
+                            continue
+                        return 0
+                    return m if st.next() >> 31 else -m
+                raise OverflowError
+
+            def g_range(st, lo, hi):
+                if not lo < hi:
+                    raise ZeroDivisionError
+                if lo == 0:
+                    return g_below(st, abs(hi))
+                if hi == 0:
+                    return lo + g_below(st, abs(lo))
+                return lo + g_below(st, hi - lo)
+            try:
+                if op in ("rgen_biguint", "rbits_u"):
+                    st = St([int(x, 16) for x in a[1:]])
+                    v = g_u(st, I(0))
+                elif op in ("rgen_bigint", "rbits_i"):
+                    st = St([int(x, 16) for x in a[1:]])
+                    v = g_i(st, I(0))
+                elif op == "rgen_below":
+                    st = St([int(x, 16) for x in a[1:]])
+                    v = g_below(st, I(0))
+                elif op in ("rgen_urange", "rgen_irange", "rsingle_u", "rsingle_i"):
+                    st = St([int(x, 16) for x in a[2:]])
+                    v = g_range(st, I(0), I(1))
+                elif op in ("runiform_u", "runiform_i"):
+                    st = St([int(x, 16) for x in a[3:]])
+                    lo, hi = I(1), I(2)
+                    if a[0] == "incl":
+                        if not lo <= hi:
+                            raise ZeroDivisionError
+                        hi += 1
+                    elif not lo < hi:
+                        raise ZeroDivisionError
+                    v = lo + g_below(st, hi - lo)
+                else:
+                    return None
+            except ZeroDivisionError:
+                return "PANIC"
+            except OverflowError:
+                return None
+            return "%s %d" % (hx(v), st.pos)
         if op in ("uhash_eq", "ihash_eq"):
             x0, y0 = I(0), I(1)
             return "%s Some(%s)" % ("true" if x0 == y0 else "false", "Less" if x0 < y0 else "Equal" if x0 == y0 else "Greater")
@@ -984,6 +1065,53 @@ def bank(pid, tier, seed):
             cases.append(("iis_even", hx(a)))
         for b in (0, 1, 5, B64, big(rng, 3)):
             cases.append(("uis_multiple_of", hx(0), hx(b)))
+    elif pid == "C18":
+        def stream(n):
+            pat = rng.choice(["rand", "small", "ones", "mixed"])
+            ws = []
+            for _ in range(n):
+                if pat == "rand":
+                    ws.append(rng.getrandbits(32))
+                elif pat == "small":
+                    ws.append(rng.choice([0, 1, 2, 0x7fffffff, 0x80000000, rng.getrandbits(8)]))
+                elif pat == "ones":
+                    ws.append(0xffffffff)
+                else:
+                    ws.append(rng.choice([0, 0xffffffff, 0x80000000, 0x7fffffff, rng.getrandbits(32), rng.getrandbits(31), 1]))
+            # a tail of small words lets rejection loops terminate
+            ws += [0x80000000, 0, 1, 0, 0, 0x7fffffff, 0, 0]
+            return tuple(format(x, "x") for x in ws)
+        for bits in (0, 1, 2, 31, 32, 33, 63, 64, 65, 95, 96, 97, 127, 128, 129, 191, 192, 193, 255, 256, 257, 1000, 1024):
+            for _ in range(4 if tier == "quick" else 12):
+                st = stream(2 * ((bits + 31) // 32) + 3)
+                cases.append(("rgen_biguint", hx(bits)) + st)
+                cases.append(("rgen_bigint", hx(bits)) + st)
+                cases.append(("rbits_u", hx(bits)) + st)
+                cases.append(("rbits_i", hx(bits)) + st)
+        bounds = [0, 1, 2, 3, 5, 100, (1 << 31), (1 << 32) - 1, 1 << 32, (1 << 32) + 1, (1 << 63) + 5, (1 << 64) - 1, 1 << 64, (1 << 64) + 1, (1 << 95) + 7, (1 << 128) - 1, 1 << 128, big(rng, 3), big(rng, 5)]
+        for b in bounds:
+            for _ in range(3 if tier == "quick" else 10):
+                st = stream(3 * ((b.bit_length() + 31) // 32) + 4)
+                cases.append(("rgen_below", hx(b)) + st)
+        for lo in (0, 1, 7, (1 << 64) - 3, big(rng, 2)):
+            for span in (0, 1, 2, 9, 1 << 32, (1 << 64) + 1, big(rng, 2)):
+                hi = lo + span
+                for _ in range(2 if tier == "quick" else 6):
+                    st = stream(3 * ((max(span, 1).bit_length() + 31) // 32) + 4)
+                    cases.append(("rgen_urange", hx(lo), hx(hi)) + st)
+                    cases.append(("rsingle_u", hx(lo), hx(hi)) + st)
+                    cases.append(("runiform_u", "excl", hx(lo), hx(hi)) + st)
+                    cases.append(("runiform_u", "incl", hx(lo), hx(hi)) + st)
+                    for (l2, h2) in ((lo, hi), (-hi, -lo), (-lo, -lo + span), (-span, 0), (0, span), (-(span // 2), span - span // 2)):
+                        cases.append(("rgen_irange", hx(l2), hx(h2)) + st)
+                        cases.append(("rsingle_i", hx(l2), hx(h2)) + st)
+                        cases.append(("runiform_i", "excl", hx(l2), hx(h2)) + st)
+                        cases.append(("runiform_i", "incl", hx(l2), hx(h2)) + st)
+        # inverted ranges panic
+        cases.append(("rgen_urange", "5", "4", "1", "2"))
+        cases.append(("rgen_irange", "5", "-4", "1", "2"))
+        cases.append(("runiform_u", "incl", "5", "4", "1", "2"))
+        cases.append(("runiform_i", "excl", "4", "4", "1", "2"))
     elif pid == "C19":
         for a, b in signed(pairs(4)):
             for op in ("iabs_sub",):
